@@ -410,9 +410,58 @@ def _is_keys_call(c):
         c.func.attr == 'keys' and not c.args and not c.keywords
 
 
+def mapping_lookups(tree):
+    """N16 ``k in d and d[k] is not None`` -> ``d.get(k) is not None``;  ``k in d and d[k]`` ->
+    ``d.get(k)`` (a missing key and a None / falsy entry fail the test alike)."""
+    n = 0
+    for node in ast.walk(tree):
+        if not (isinstance(node, ast.BoolOp) and isinstance(node.op, ast.And)):
+            continue
+        out = []
+        for v in node.values:
+            prev = out[-1] if out else None
+            if isinstance(prev, ast.Compare) and len(prev.ops) == 1 and \
+                    isinstance(prev.ops[0], ast.In):
+                k, d = prev.left, prev.comparators[0]
+                sub = None
+                if isinstance(v, ast.Compare) and len(v.ops) == 1 and \
+                        isinstance(v.ops[0], ast.IsNot) and \
+                        isinstance(v.comparators[0], ast.Constant) and \
+                        v.comparators[0].value is None:
+                    sub = v.left
+                elif isinstance(v, ast.Subscript):
+                    sub = v
+                if isinstance(sub, ast.Subscript) and ast.dump(sub.value) == ast.dump(d) and \
+                        ast.dump(sub.slice) == ast.dump(k) and \
+                        isinstance(d, (ast.Name, ast.Attribute)):
+                    call = ast.Call(func=ast.Attribute(value=d, attr='get', ctx=ast.Load()),
+                                    args=[k], keywords=[])
+                    for x in ast.walk(call):
+                        ast.copy_location(x, sub)
+                    if sub is v:
+                        out[-1] = call
+                    else:
+                        v.left = call
+                        out[-1] = v
+                    n += 1
+                    continue
+            out.append(v)
+        if len(out) != len(node.values):
+            node.values = out
+    # an `and` left with one operand is that operand
+    class One(ast.NodeTransformer):
+        def visit_BoolOp(self, b):
+            self.generic_visit(b)
+            return b.values[0] if len(b.values) == 1 else b
+    if n:
+        One().visit(tree)
+    return n
+
+
 def normalise(tree):
     r = _Rewriter()
     r.visit(tree)
+    r.n += mapping_lookups(tree)
     r.n += for_else_without_break(tree)
     r.n += drop_dead_statements(tree)
     r.n += loops_and_comprehensions(tree)
